@@ -197,6 +197,21 @@ theorem C12_udp (sc : UdpSpecCase) (chunks : List Bytes) (uw : Option Nat) (hfla
   have h := udp_returned ⟨sc.uevs, sc.utail, chunks, sc.ttail, sc.tfused, uw⟩ hwf σ
   exact holdsUdp_of sc chunks uw hflat _ h.2.1 h.1
 
+/-- **A real UDP socket gets every datagram of every pass**, however many and however large: `flush()` hands the
+datagrams of one unpack pass to the sendmmsg batch writer in batches of `batchSize` = 32; the batches put together
+are exactly the pass's datagrams in order, none is empty, none exceeds the writer's capacity (which is the same
+`batchSize`, so `udpBatchWriter.add` — whose only refusal is "capacity reached", pinned by its skeleton — never
+refuses and the ignored return value loses nothing). There is no byte budget: 10 × 8000 or 5 × 65507 bytes go
+out like 32 × 1. -/
+theorem C12_udp_batches_lose_nothing (pk : List Bytes) :
+    (flushBatches batchSize pk).flatten = pk ∧
+    (∀ b ∈ flushBatches batchSize pk, b.length ≤ batchSize ∧ b ≠ []) ∧
+    batchFlushAt = batchSize ∧
+    Gen.Skel.udpBatchWriter_add = ["len", "len"] ∧
+    Gen.Skel.udpBatchWriter_flush = ["pktConn.WriteBatch", "conn.Write"] := by
+  have h := flushBatches_spec batchSize (by decide) pk.length pk (Nat.le_refl _)
+  exact ⟨h.1, h.2, by decide, by decide, by decide⟩
+
 /-- **Asynchronous local socket** (`mapping.UDPVirtualConn`, the `localConn` that `tunnel.runDataCopy` hands to
 `iocopy.UDP`): its `Write` queues a private copy and a send loop delivers it later. For all the inputs of
 `C12_udp` and EVERY schedule that additionally delays the sends arbitrarily against the relay's further reads
@@ -434,6 +449,10 @@ example :
     (udpObs (udpRun .repaired ⟨[], .hold, [[0, 1, 65, 0, 1, 66, 0, 1, 67]], .eof, false, some 1⟩
       (udpComplete ⟨[], .hold, [[0, 1, 65, 0, 1, 66, 0, 1, 67]], .eof, false, some 1⟩ []))) =
       ⟨true, [], [[65]], 0, true, false, true, 0, 1⟩ := by decide
+
+/-- 70 datagrams of one pass go out as batches of 32, 32 and 6. -/
+example : ((flushBatches batchSize (List.replicate 70 [1])).map List.length) = [32, 32, 6] := by
+  simp [flushBatches, batchSize]
 
 /-- `holdsUdp` is not trivially true: a relay that dropped the datagram before the cut fails it. -/
 example : holdsUdp ⟨[], .hold, [[97]], 3, [], .eof, false⟩ ⟨true, [], [], 0, false, false, false, 0, 0⟩ = false := by decide
